@@ -156,10 +156,10 @@ def module(c, key, max_items):
                 pats.append(f"E::V{i} => format!(\"[\\\"ok\\\",{i + 1},[]]\"),")
             elif v["k"] == "tuple":
                 b = ", ".join(f"f{j}" for j in range(v["n"]))
-                pats.append(f"E::V{i}({b}) => format!(\"[\\\"ok\\\",{i + 1},[{{}}]]\", vec![{', '.join(f'f{j}.0.to_string()' for j in range(v['n']))}].join(\",\")),")
+                pats.append(f"E::V{i}({b}) => format!(\"[\\\"ok\\\",{i + 1},[{{}}]]\", (vec![{', '.join(f'f{j}.0.to_string()' for j in range(v['n']))}] as Vec<String>).join(\",\")),")
             else:
                 b = ", ".join(f"{'abc'[j]}: f{j}" for j in range(v["n"]))
-                pats.append(f"E::V{i} {{ {b} }} => format!(\"[\\\"ok\\\",{i + 1},[{{}}]]\", vec![{', '.join(f'f{j}.0.to_string()' for j in range(v['n']))}].join(\",\")),")
+                pats.append(f"E::V{i} {{ {b} }} => format!(\"[\\\"ok\\\",{i + 1},[{{}}]]\", (vec![{', '.join(f'f{j}.0.to_string()' for j in range(v['n']))}] as Vec<String>).join(\",\")),")
         lines.append("fn show(e: &E) -> String { match e { " + " ".join(pats) + " } }")
         ls = [variant_val(v, lambda i: 11 + i, f"E::V{i}") for i, v in enumerate(vs)]
         rs = [variant_val(v, lambda i: 21 + i, f"E::V{i}") for i, v in enumerate(vs)]
